@@ -26,7 +26,9 @@ EXPLANATION = (
     "objects it allocated (or deep-copied) and return a fresh object that "
     "holds nothing rooted at an operand; the six __deepcopy__ hooks are the "
     "pickle round trip and no class defines a state hook that could drop or "
-    "alias state; RankAttrs.getDefault hands out a fresh box.")
+    "alias state; RankAttrs.getDefault hands out a fresh box; (R6) an "
+    "element of a getter result whose elements are the stored objects (rank "
+    "ids) is never edited in place unless a fresh store dominates the edit.")
 RULE = ("one obligation per (observer x write-effect query), per "
         "(value-returning operation x {writes, result roots, held roots}), "
         "per copy hook and per getDefault return path")
